@@ -18,6 +18,16 @@ static void buildObject(C3D& c, const std::string& kind) {
     for (int f = 0; f < nf; ++f) c.frame(buildFrame(sh, f % 3));
 }
 struct Plan { std::string text; ShimPlan p; };
+// The calling context of the save is part of the plan: directly; inside a catch handler (an exception is being handled);
+// from a destructor that runs while an unrelated exception unwinds the stack (std::uncaught_exception() is true).
+static Outcome saveIn(const std::string& ctx, C3D& c, const std::string& path, std::string* what) {
+    if (ctx == "direct") return guarded([&] { c.write(path); }, what);
+    if (ctx == "in-catch-handler") { Outcome oc = OK; try { throw std::runtime_error("other"); } catch (const std::runtime_error&) { oc = guarded([&] { c.write(path); }, what); } return oc; }
+    Outcome oc = OK;
+    struct Guard { C3D& c; const std::string& p; Outcome& oc; std::string* w; ~Guard() { oc = guarded([&] { c.write(p); }, w); } };
+    try { Guard g{c, path, oc, what}; throw std::logic_error("unrelated"); } catch (const std::logic_error&) { }
+    return oc;
+}
 
 int main(int argc, char** argv) {
     std::string tier = "quick", scratch, out, one; for (int i = 1; i < argc; ++i) { std::string a = argv[i]; auto nxt = [&]() { return std::string(argv[++i]); }; if (a == "--tier") tier = nxt(); else if (a == "--scratch") scratch = nxt(); else if (a == "--out") out = nxt(); else if (a == "--plan") one = nxt(); }
@@ -54,13 +64,18 @@ int main(int argc, char** argv) {
             for (long k = 1; k <= 2 * nWrites + 4; ++k) { Plan p; p.p = base; p.p.failWriteCall = k; p.p.failErrno = EIO; p.p.shortMode = -1; p.text = "all-writes-short+write-call-" + std::to_string(k) + "-fails"; plans.push_back(p); }
             for (long cap = 0; cap < size; cap += st * 5) { Plan p; p.p = base; p.p.capacity = cap; p.p.closeFailErrno = EIO; p.text = "close-fails+capacity=" + std::to_string(cap); plans.push_back(p); }
         }
+        {   // every plan again in the two other calling contexts
+            size_t n = plans.size();
+            for (auto ctx : {"in-catch-handler", "during-unwinding"}) for (size_t i = 0; i < n; ++i) { if (ok == "big" && i % 5) continue; Plan p = plans[i]; p.text += std::string("@") + ctx; plans.push_back(p); }
+        }
         for (auto& pl : plans) {
             if (!one.empty() && one != ok + ":" + pl.text) continue;
+            std::string ctx = pl.text.find('@') == std::string::npos ? "direct" : pl.text.substr(pl.text.find('@') + 1);
             unlink(path.c_str()); if (ok == "over-source") { vf_plan.active = 0; FILE* fr = fopen(path.c_str(), "wb"); fwrite(original.data(), 1, original.size(), fr); fclose(fr); }
-            vf_plan = pl.p; vf_shim_reset(); std::string w2; Outcome o2 = guarded([&] { c.write(path); }, &w2); long inj = vf_stats.injected;
+            vf_plan = pl.p; vf_shim_reset(); std::string w2; Outcome o2 = saveIn(ctx, c, path, &w2); long inj = vf_stats.injected;
             vf_plan.active = 0; std::string got; readAll(path, got); evals++; if (inj) injectedRuns++;
-            std::string cls = pl.text.substr(0, pl.text.find_first_of("=0123456789")); while (!cls.empty() && (cls.back() == '-' || cls.back() == '/')) cls.pop_back();
-            if (pl.text.compare(0, 10, "open-fails") == 0) cls = "open-fails"; if (pl.text.find("+") != std::string::npos) cls = "pair:" + cls;
+            std::string bare = pl.text.substr(0, pl.text.find('@')); std::string cls = bare.substr(0, bare.find_first_of("=0123456789")); while (!cls.empty() && (cls.back() == '-' || cls.back() == '/')) cls.pop_back();
+            if (pl.text.compare(0, 10, "open-fails") == 0) cls = "open-fails"; if (pl.text.find("+") != std::string::npos) cls = "pair:" + cls; if (ctx != "direct") cls += "@" + ctx;
             outcomes[std::string(outcomeName(o2)) + (got == good ? "/complete" : "/incomplete")]++;
             if (samples.size() < 8 && evals % 97 == 1) samples.push_back(ok + ":" + pl.text + " -> " + outcomeName(o2));
             if (!one.empty()) printf("%s:%s -> %s (%s) injected=%ld device holds %zu of %ld bytes, identical=%d\n", ok.c_str(), pl.text.c_str(), outcomeName(o2), w2.c_str(), inj, got.size(), size, (int)(got == good));
